@@ -637,6 +637,16 @@ func rulesC09(w *World, o *Out) {
 			if perKey[base] > 1 {
 				key = fmt.Sprintf("%s#%d", base, perKey[base])
 			}
+			// a site that a later edit moved into a new helper keeps the triage of the function it came from
+			if !s.ok && c09Triage[key] == "" && isNewHelper(lexTop(f)) {
+				for _, rc := range rootCallers(f) {
+					alt := w.FuncKey(rc) + "|" + s.class + "|" + s.desc
+					if c09Triage[alt] != "" {
+						key = alt
+						break
+					}
+				}
+			}
 			switch {
 			case s.ok:
 				o.Pass("C09.R2", key, w.Pos(s.pos), s.why)
